@@ -697,7 +697,7 @@ func readFieldAnnotationsForType(typeSpec *ast.TypeSpec, typeName string) []Muta
 	var mutables []MutableAnnotation
 
 	// Only process struct types
-	structType, ok := typeSpec.Type.(*ast.StructType)
+	structType, ok := ast.Unparen(typeSpec.Type).(*ast.StructType)
 	if !ok {
 		return mutables
 	}
